@@ -31,6 +31,7 @@ func c02Gen(t *rapid.T) vPipeCase {
 		c.Streams = append(c.Streams, s)
 	}
 	c.Pulses = vGenPulses(t, c.Nchan, c.Nsamp, c.Blocks, 8)
+	c.SlowPub = rapid.IntRange(0, 11).Draw(t, "slowpub") == 0
 	all := make([]int, c.Nchan)
 	for i := range all {
 		all[i] = i
@@ -302,6 +303,9 @@ func c02Run(c vPipeCase) (v vVerdict) {
 	v.NonTrivial = nearBoundary
 	if tr.Refused > 0 {
 		classes["refused-length-change"] = true
+	}
+	if c.SlowPub {
+		classes["slow-publisher"] = true
 	}
 	for k := range classes {
 		v.Classes = append(v.Classes, k)
